@@ -170,10 +170,31 @@ func directedOracle() []hist {
 		h.add(claimLine(0, 1, 12, snd0, 4, "9", "eth", tok0, 2))
 		h.add("txm wl 3 remove 1 | %s", second)
 		h.add(claimLine(1, 1, 12, snd0, 4, "9", "eth", tok0, 2))
-		h.add("blk")
+		h.add("blk 1")
 		h.add(claimLine(2, 1, 13, snd0, 4, "9", "eth", tok0, 2))
 		h.add(claimLine(1, 1, 13, snd0, 4, "9", "eth", tok0, 2))
 		front = append(front, h) // run first: see the end of the function
+	}
+	// time: a prophecy finalised (one SUCCESS, one FAILED) stays as it is however many blocks pass; late and replayed
+	// claims after 1, 10, 100800, 100801 and 10^6 more blocks are refused and credit nothing
+	{
+		var h hist
+		stdSetup(&h, []int64{4, 3, 3}, nil, "0,1,2")
+		h.add("blk 9")
+		h.add(claimLine(0, 1, 14, snd0, 4, "10", "eth", tok0, 2))
+		h.add(claimLine(1, 1, 14, snd0, 4, "10", "eth", tok0, 2)) // success
+		h.add(claimLine(0, 1, 15, snd0, 4, "1", "eth", tok0, 2))
+		h.add(claimLine(1, 1, 15, snd0, 4, "2", "eth", tok0, 2))
+		h.add(claimLine(2, 1, 15, snd0, 4, "3", "eth", tok0, 2)) // failed
+		for _, n := range []int64{1, 10, 100800, 1, 1, 100801, 1000000} {
+			h.add("blk %d", n)
+			for v := 0; v < 3; v++ {
+				h.add(claimLine(v, 1, 14, snd0, 4, "10", "eth", tok0, 2))
+			}
+			h.add(claimLine(0, 1, 15, snd0, 4, "1", "eth", tok0, 2))
+			h.add(claimLine(1, 1, 15, snd0, 4, "1", "eth", tok0, 2))
+		}
+		front = append(front, h)
 	}
 	// zero total power, zero-power claimant, whitelist with duplicates
 	{
@@ -518,8 +539,9 @@ func randomHistory(rng *Rng, profile string) hist {
 			h.add("restart") // restart from the exported genesis; claims are re-sent afterwards by the ordinary draws
 			continue
 		}
-		if rng.Chance(1, 40) {
-			h.add("blk") // next block
+		if rng.Chance(1, 25) {
+			// blocks pass: the next one, a few, or far beyond any retention / expiry period
+			h.add("blk %d", []int64{1, 1, 10, 100800, 100801, 1000000}[rng.Intn(6)])
 			continue
 		}
 		if rng.Chance(1, 18) {
@@ -690,6 +712,14 @@ func shrinkHistory(rng *Rng, profile string) hist {
 		completer = perm[rng.Intn(k)] // a validator that already claimed A: duplicate
 	}
 	h.add("tx claim %s 1 %d %s %s", sp(rng, completer, 15), ev, snd, B)
+	if rng.Chance(1, 3) {
+		// many blocks later the validators re-send what they claimed
+		h.add("blk %d", []int64{10, 100800, 100801, 1000000}[rng.Intn(4)])
+		h.add("blk 1")
+		for i := 0; i < k; i++ {
+			h.add("tx claim %d 1 %d %s %s", perm[i], ev, snd, A)
+		}
+	}
 	if rng.Chance(1, 3) {
 		// restart from the exported genesis, then the validators re-send what they claimed
 		h.add("restart")
